@@ -107,7 +107,7 @@ def _validate(rep, trace, timeout, totals):
                 continue
             verdicts["reject"] = verdicts.get("reject", 0) + 1
             rep.violation({"dir": "impl->spec", "fam": "random", "symptom": "reject", "script": "\n".join(rec["script"]),
-                           "opts": "".join(k for k in "xvni" if rec["sc"]["o"][k])},
+                           "opts": "".join(k for k in "xvni" if rec["sc"]["o"][k]), "env": ""},
                           f"random scenario: what the shell shows is none of the {j['n']} outcome(s) XTrace.tla allows; "
                           "script:\n" + "\n".join(rec["script"]) + "\nobserved: " + json.dumps(rec["obs"])[:3000],
                           {"sc": rec["sc"], "dir": "impl->spec"})
